@@ -142,3 +142,10 @@ package keeper
 //@ func (Keeper).SetFeePool
 //@   flag noframe
 //@   before[C17.sfp.key] KVStore.Set requires arg0 == g("x/feedistribution/types.FeePoolKey") && arg1 == res_MustMarshal_0
+
+// C17 (whatever has been moved to the distribution account is booked): reading the community tax cannot fail - it is
+// read after the fee collector's balance has been moved -, and it is the configured rate, zero included.
+//@ func (Keeper).GetCommunityTax
+//@   flag noframe
+//@   flag pure=GetParams
+//@   ensures[C17.gct.total] err == nil && defined(res_GetParams_0) && r0 == res_GetParams_0.CommunityTax
